@@ -58,16 +58,22 @@ STIMULI = {
 
 
 class StimPlan(Plan):
-    def __init__(self, stim, rng):
+    def __init__(self, stim, rng, md_lost=False):
         super().__init__()
         self.stim = set(stim)
         self.rng = rng
         self.flipped = False
+        self.md_lost = md_lost
 
     def on_emit(self, idx, item):
         d, raw, side = item["d"], item["raw"], item["side"]
         k = d.get("kind")
         st = self.stim
+        if self.md_lost and side == "S" and k == "MD" and not d["h"]["unack"]:
+            # the first copy of the Metadata PDU is lost (acknowledged mode): it is re-requested and arrives after file data / EOF
+            self.md_lost = False
+            self.applied.append((idx, "drop", wire.short(d), side))
+            return []
         if side == "D" and ("src_ack_limit" in st or "src_check_limit" in st):
             self.applied.append((idx, "drop", wire.short(d), side))
             return []
@@ -132,6 +138,8 @@ def gen_cases(tier, seed):
                     for imm in ((True, False) if m == "ack" else (True,)):
                         cases.append({"t": "matrix", "stim": [stim], "table_s": {cond: code} if side == "S" else {}, "table_d": {cond: code} if side == "D" else {},
                                       "mode": m, "closure": closure, "imm": imm, "size": 10, "seed": 1, "decouple": side})
+                        if m == "ack" and side == "D":
+                            cases.append(dict(cases[-1], md_lost=True))
     rng = random.Random(1400 + seed)
     n = 5000 if tier == "quick" else 100000
     names = list(STIMULI)
@@ -140,7 +148,7 @@ def gen_cases(tier, seed):
         cases.append({"t": "random", "stim": stim, "table_s": {c: rng.choice(["ignore", "cancel", "abandon"]) for c in TABLE_CONDS if rng.random() < 0.7},
                       "table_d": {c: rng.choice(["ignore", "cancel", "abandon"]) for c in TABLE_CONDS if rng.random() < 0.7},
                       "mode": rng.choice(["ack", "unack"]), "closure": rng.random() < 0.5, "imm": rng.random() < 0.5, "size": rng.choice([10, 10, 12, 17]),
-                      "seed": seed * 1_000_003 + i, "decouple": rng.choice(["S", "D", None])})
+                      "seed": seed * 1_000_003 + i, "decouple": rng.choice(["S", "D", None]), "md_lost": rng.random() < 0.2})
     # two consecutive transactions on the same handlers (fault state must not leak into the next transaction's fault handling)
     n2 = 600 if tier == "quick" else 20000
     for i in range(n2):
@@ -149,6 +157,18 @@ def gen_cases(tier, seed):
                       "table_d": {c: rng.choice(["ignore", "cancel", "abandon"]) for c in TABLE_CONDS if rng.random() < 0.5},
                       "mode": rng.choice(["ack", "unack"]), "closure": rng.random() < 0.5, "imm": rng.random() < 0.5, "size": rng.choice([10, 12, 17]),
                       "seed": seed * 1_000_003 + 700_000 + i, "decouple": rng.choice(["S", "D", None])})
+    # directed: a transaction abandoned by the receiver (every way the bench can provoke, incl. a fault declared in a call which already
+    # queued a NAK) is followed by a transaction whose fault is cancelled
+    firsts = [[x] for x, v in STIMULI.items() if v[0] == "D"] + [["size_error_fd", "dst_nak_limit"], ["size_error_fd_race", "dst_nak_limit"], ["size_error_eof", "dst_nak_limit"]]
+    seconds = [["checksum_ack"], ["checksum_unack"], ["dst_nak_limit"], ["reject_write_perm"], ["cancel_dst"], ["dst_ack_limit"]]
+    for i, (first, second) in enumerate(itertools.product(firsts, seconds)):
+        for mode, imm in (("ack", True), ("ack", False), ("unack", True)):
+            if (mode == "unack") != (STIMULI[second[0]][2] == "unack") and STIMULI[second[0]][2] is not None:
+                continue
+            if tier == "quick" and (i + imm) % 2:
+                continue
+            cases.append({"t": "sequence", "stim": [], "phases": [first, second], "table_s": {}, "table_d": {c: "abandon" for c in TABLE_CONDS},
+                          "table_d2": {}, "mode": mode, "closure": True, "imm": imm, "size": 10, "seed": 77 + i, "decouple": "D", "md_lost": i % 3 == 0})
     cases.append({"t": "api"})
     return cases
 
@@ -222,7 +242,12 @@ def run_case(case):
                 actions.setdefault(rng.choice([2, 3, 5]), []).append(("cancel", "S"))
             if "cancel_dst" in stim:
                 actions.setdefault(rng.choice([2, 3, 5]), []).append(("cancel", "D"))
-            plan = StimPlan(stim, rng)
+            plan = StimPlan(stim, rng, md_lost=bool(case.get("md_lost")))
+            w.log.add("phase", "-", pi=pi)
+            if pi > 0 and case.get("table_d2") is not None:
+                # the user re-configures the fault handler table between the two transactions
+                for cond in TABLE_CONDS:
+                    w.D.fh.set_handler(ConditionCode[cond], FHC[case["table_d2"].get(cond, DEFAULTS.get(cond, "cancel"))])
             r = Runner(w, plan=plan, max_expiries=14, max_rounds=800, actions=actions)
             try:
                 w.put()
@@ -247,6 +272,9 @@ def run_case(case):
         tables = {"S": dict(DEFAULTS, **case["table_s"]), "D": dict(DEFAULTS, **case["table_d"])}
         judged = 0
         for i, e in enumerate(evs):
+            if e["kind"] == "phase" and e["pi"] > 0 and case.get("table_d2") is not None:
+                tables["D"] = dict(DEFAULTS, **case["table_d2"])
+                obs["fault_table_reconfigured_between_transactions"] = 1
             if e["kind"] != "declare":
                 continue
             side, cond = e["side"], e["cond"]
@@ -334,14 +362,20 @@ def run_case(case):
                             and wire.kind_of(x["raw"]) == "NAK"]
                     if naks and fins:
                         viol.append(dict(where, clause="nak-emitted-by-cancelled-transaction", naks=naks[:3]))
+                    # the run need not end (stimuli may silence the peer for good), but the receiver reports a cancellation within its next calls
+                    # (counted up to the bench's reset of a hanging handler / the next transaction)
+                    upto = next((j for j, x in enumerate(after_call) if x["kind"] == "phase" or (x["kind"] == "call" and x["side"] == "D" and x.get("api") == "reset")), len(after_call))
+                    d_calls_after = sum(1 for x in after_call[:upto] if x["kind"] == "call" and x["side"] == "D" and x.get("api") == "state_machine")
+                    settled = outcome == "done" or d_calls_after >= 4
                     if not fins:
-                        if outcome == "done":
+                        if settled:
                             viol.append(dict(where, clause="cancellation-not-reported-to-user"))
                     elif fins[0]["fin"][0] != cond and not later_override:
                         viol.append(dict(where, clause="transaction-finished-condition-differs", fin=fins[0]["fin"]))
-                    finp = [x["d"] for x in following if x["kind"] == "tx" and x["side"] == "D" and x["d"].get("kind") == "FIN"]
+                    finp = [x["d"] for x in following if x["kind"] == "tx" and x["side"] == "D" and x["d"].get("kind") == "FIN"
+                            and (x["d"]["h"]["src"], x["d"]["h"]["seq"]) == (tid[0], tid[2])]
                     need_fin = case["mode"] == "ack" or case["closure"]
-                    if need_fin and fins and not finp and outcome == "done":
+                    if need_fin and fins and not finp and settled:
                         viol.append(dict(where, clause="cancellation-not-reported-to-peer"))
                     elif finp and finp[0].get("cond") != cond and not later_override:
                         viol.append(dict(where, clause="finished-pdu-condition-differs", pdu=wire.short(finp[0])))
